@@ -21,9 +21,11 @@
   model (`cg_call_without_result_has_no_code`: the real builder panics on `inst_results(inst)[0]`);
   the simulation therefore carries the decidable hypothesis `callsOk L` (every assigned call names
   a function without `Return(None)`), which the driver evaluates on the LIR of every program of
-  the tie; that `C01Lir.lowerProg` only produces such programs is checked there, not proved.
+  the tie; `lower_assigns_only_existing_results`: `C01Lir.lowerProg` only produces such programs
+  (for `rv` = what `retInfoOf P` says), so `mir_to_code_partial` needs `namesOk P` only.
 -/
 import RotoV.Lemmas.C01CgSim
+import RotoV.Lemmas.C01CgCalls
 import RotoV.Lemmas.C01LirSim
 import RotoV.Model.NativeFloat
 
@@ -110,7 +112,9 @@ theorem cg_assigned_calls_have_results (L : List LFn) (C : List CFn) (h : cgProg
 /-- **From the compiler's MIR to the emitted code (scalar vocabulary).**  The LIR layer
     (`lir_lower_preserves_partial`: the model of `lir::lower`, instruction selection by the generated
     `lower_binop`) composed with the code-generation layer: for every MIR program `P` on which both
-    models are defined, every function `f` (parameter mask `mask`, `rv`: returns a value), all
+    models are defined and in which every function is the one its name finds (`namesOk`; with
+    `lower_assigns_only_existing_results` this discharges the hypothesis of `cg_preserves_partial`),
+    every function `f` (parameter mask `mask`, `rv`: returns a value), all
     arguments, the SSA encodings of the non-zero-sized ones and every fuel: if the MIR function
     returns `v`, the emitted function returns the SSA value of `v` (nothing when `v` is zero-sized
     and the function ends in `Return(None)`), with the same fuel. -/
@@ -119,11 +123,22 @@ theorem mir_to_code_partial (P : List MFn) (L : List LFn) (C : List CFn)
     (n : Nat) (f : String) (mask : List Bool) (rv : Bool) (args : List Val) (cs : List CVal) (v : Val)
     (hf : retInfoOf P f = some (mask, rv)) (hlen : args.length = mask.length)
     (henc : EncAll (C01LirSim.filterMask mask args) cs)
-    (hok : callsOk L = true)
+    (hnames : namesOk P = true)
     (hm : mRun P n f args = some v) :
     ∃ r, cRun C n f cs = some r ∧ RetRel (C01LirSim.fixVal rv v) r := by
-  obtain ⟨r, hr, hrr, _⟩ := cg_sim L C h2 (rvOf L) hok n f _ cs _ henc (C01LirSim.lir_sim P L h1 n f mask rv args v hf hlen hm)
+  obtain ⟨r, hr, hrr, _⟩ := cg_sim L C h2 (rvM P) (C01CgCalls.lowerProg_progOk P L hnames h1) n f _ cs _ henc
+    (C01LirSim.lir_sim P L h1 n f mask rv args v hf hlen hm)
   exact ⟨r, hr, hrr⟩
+
+/-- **`lir::lower` never assigns a result that does not exist.**  For every MIR program `P` in which
+    every function is the one its name finds (`namesOk`: the compiler rejects a second function of
+    the same name) and on which the model of `lir::lower` is defined: in the LIR it produces, every
+    call with a `to` names a function `retInfoOf P` says returns a value, and no function of which
+    it says so contains `Return(None)` — the condition (`progOk`) under which the `Call` arm's
+    `inst_results(inst)[0]` exists (`cg_assigned_calls_have_results`). -/
+theorem lower_assigns_only_existing_results (P : List MFn) (L : List LFn)
+    (hnames : namesOk P = true) (h : lowerProg P = some L) : progOk (rvM P) L = true :=
+  C01CgCalls.lowerProg_progOk P L hnames h
 
 /-- a LIR function with a loop-free diamond: `fn f(x) { if x == 1 then 10 else 20 }` on a
     one-case switch -/
@@ -161,6 +176,9 @@ def exM : MFn :=
 
 example : retInfoOf [exM] "g" = some ([true, false], true) := by decide
 example : ((lowerProg [exM]).map callsOk) = some true := by decide +kernel
+example : namesOk [exM] = true := by decide +kernel
+/-- `namesOk` rejects a second function of the same name with another `retVal` -/
+example : namesOk [exM, { exM with retVal := false }] = false := by decide +kernel
 example : (letI : FloatOps := nativeFloatOps; mRun [exM] 10 "g" [.int 30, .unit]) = some (.int (-30)) := by decide +kernel
 example : (letI : FloatOps := nativeFloatOps
     ((lowerProg [exM]).bind fun L => cgProg L).bind fun C => cRun C 10 "g" [C01MirRun.cvI32 30])
